@@ -228,8 +228,18 @@ func (w *world) cleanup() {
 	w.cache.failGet = map[schema.GroupVersionKind]int{}
 	w.cache.failRemove = map[schema.GroupVersionKind]int{}
 	w.cache.mu.Unlock()
-	for _, c := range ctrlNames {
-		_ = w.eng.Stop(context.Background(), c)
+	// Bounded: after a detected deadlock the engine's locks are held for good and Stop would hang with them -
+	// the failure must still be reported (a hanging cleanup turns a violation into a timeout).
+	done := make(chan struct{})
+	go func() {
+		defer close(done)
+		for _, c := range ctrlNames {
+			_ = w.eng.Stop(context.Background(), c)
+		}
+	}()
+	select {
+	case <-done:
+	case <-time.After(3 * time.Second):
 	}
 	// instances that were created but are no longer tracked by the engine (seeded defects may orphan them)
 	w.mu.Lock()
